@@ -672,6 +672,13 @@ def execute(desc):
             'C14', 'S2', step, kind,
             'result not in non-increasing score order at position %d' % i,
             got=[list(k) for k in keys])
+    if pushed is not None and not pushed and raw:
+      # designs came back but nothing went through HeapDict.push: this search
+      # does not (or no longer) use the container that way; S3 has no history
+      # to judge by (S0-S2 above still apply)
+      stats['skipped']['no_pushes_recorded'] = (
+          stats['skipped'].get('no_pushes_recorded', 0) + 1)
+      pushed = None
     if pushed is not None:
       pk = [_design_sort_key(d) for _, d in pushed]
       if any(k is None for k in pk):
@@ -685,7 +692,13 @@ def execute(desc):
         probe('search_retained_fewer_than_n_designs')
       if not pk:
         probe('search_pushed_nothing')
-      if keys != exp:
+      # a search may keep several queues (keys) and return one of them
+      by_key = {}
+      for (key, _), k in zip(pushed, pk):
+        by_key.setdefault(key, []).append(k)
+      alternatives = [sorted(v, reverse=True)[:n_designs]
+                      for v in by_key.values()]
+      if keys != exp and keys not in alternatives:
         return core.violation(
             'C14', 'S3', step, kind,
             'returned scores are not the %d largest of the %d designs the '
